@@ -111,3 +111,42 @@ def equalizer(repo):
     if c is None:
         raise AnalysisError('anchor-lost class=Equalizer')
     return c
+
+
+class EqRoles(object):
+    """anchors of the Equalizer found by structure (public names and names the tests patch are used as is)"""
+
+    def __init__(self, repo):
+        eq = equalizer(repo)
+        self.eq = eq
+        self.run = eq.lookup('run_comparison')
+        self.pac = eq.lookup('_play_and_compare_recording')          # patched by the tests: stable
+        self.kill = eq.lookup('_kill_compare_process')               # patched by the tests: stable
+        self.create = eq.lookup('_create_new_player_process')        # patched by the tests: stable
+        if None in (self.run, self.pac, self.kill, self.create):
+            raise AnalysisError('anchor-lost Equalizer public / test-patched methods')
+
+        def calls(m, name):
+            return any(isinstance(n, ast.Call) and self_attr(n.func) == name for n in ast.walk(m.node))
+        # worker target: the method named as target= of the Process constructor
+        self.target = None
+        for n in ast.walk(self.create.node):
+            if isinstance(n, ast.Call) and norm(n.func).endswith('Process'):
+                for k in n.keywords:
+                    if k.arg == 'target' and self_attr(k.value):
+                        self.target = eq.lookup(self_attr(k.value))
+        # dispatch routine: the method the run loop calls with the id
+        self.dispatch = None
+        for n in ast.walk(self.run.node):
+            if isinstance(n, ast.Call) and self_attr(n.func) and eq.lookup(n.func.attr) is not None and n.args and \
+                    eq.lookup(n.func.attr) not in (self.pac,) and not eq.lookup(n.func.attr).is_static:
+                self.dispatch = eq.lookup(n.func.attr)
+        # recycle routine: calls create
+        rec = [m for m in eq.methods.values() if m is not self.create and calls(m, self.create.name)]
+        self.recycle = rec[0] if len(rec) == 1 else None
+        # timeout handler: calls kill
+        th = [m for m in eq.methods.values() if m is not self.kill and calls(m, self.kill.name)]
+        self.timeout = th[0] if len(th) == 1 else None
+        for nm in ('target', 'dispatch', 'recycle', 'timeout'):
+            if getattr(self, nm) is None:
+                raise AnalysisError('anchor-lost role=equalizer %s' % nm)
